@@ -115,6 +115,15 @@ def make_map(g: str):
     )
 
 
+def make_map_via(g: str, route: str):
+    """IndelMap of g by the constructor or, as alignments do, by parsing the gapped string"""
+    if route == "parse" and g:
+        from cogent3 import make_seq
+
+        return make_seq(g, moltype="text").parse_out_gaps()[0]
+    return make_map(g)
+
+
 def ints(x):
     return json.loads(json.dumps(numpy.asarray(x).tolist()))
 
@@ -349,7 +358,8 @@ def binary_cases(draw):
     if L:
         fc = sorted(set(draw(st.lists(st.integers(0, L), min_size=0, max_size=6))))
         feat = [[fc[j], fc[j + 1]] for j in range(0, len(fc) - 1, 2)]
-    return {"g1": g1, "g2": g2, "g3": g3, "extra": extra, "segs": segs, "feat": feat}
+    route = draw(st.sampled_from(["direct", "parse"]))
+    return {"g1": g1, "g2": g2, "g3": g3, "extra": extra, "segs": segs, "feat": feat, "route": route}
 
 
 def exec_binary(case) -> Soft:
@@ -359,7 +369,12 @@ def exec_binary(case) -> Soft:
     l1, l2, l3 = case["g1"], case["g2"], case["g3"]
     g1, g2 = gapped(l1), gapped(l2)
     r1, r2 = g1.replace("-", ""), g2.replace("-", "")
-    m1, m2 = make_map(g1), make_map(g2)
+    route = case.get("route", "direct")
+    ok, m1 = s.call("construct/" + route, make_map_via, g1, route)
+    ok2, m2 = s.call("construct/" + route, make_map_via, g2, route)
+    if not (ok and ok2):
+        return s
+    s.cls("route:" + route)
     nr1, nr2 = len(runs(g1, True)), len(runs(g2, True))
     s.nontrivial = nr1 >= 2 or (nr1 >= 1 and nr2 >= 1)
 
@@ -393,7 +408,9 @@ def exec_binary(case) -> Soft:
     # merge maps: same sequence, other gap layout
     n = len(r1)
     other_g = "".join("-" * case["extra"][i] + r1[i] for i in range(n)) + "-" * case["extra"][n]
-    mo = make_map(other_g)
+    ok, mo = s.call("construct/" + route, make_map_via, other_g, route)
+    if not ok:
+        return s
     ok, r = s.call("merge_maps", m1.merge_maps, mo)
     if ok:
         # gap length in front of residue i is the sum of both
@@ -415,7 +432,9 @@ def exec_binary(case) -> Soft:
 
     # shared / minus gaps with an equal-length partner
     g3 = gapped(l3)
-    m3 = make_map(g3)
+    ok, m3 = s.call("construct/" + route, make_map_via, g3, route)
+    if not ok:
+        return s
     both = [i for i in range(len(g1)) if g1[i] == "-" and g3[i] == "-"]
     ok, r = s.call("shared_gaps", m1.shared_gaps, m3)
     if ok:
